@@ -15,12 +15,15 @@ impl<T: Eq + Hash + Debug> ReferenceCounter<T> {
         *counts.entry(t).or_insert(0) += 1;
     }
 
-    pub fn dec(&self, t: T) -> bool {
+    /// Drop a reference.  When it was the last one, run `last` before anyone can take a new
+    /// reference, and return true.
+    pub fn dec_and<F: FnOnce()>(&self, t: T, last: F) -> bool {
         let mut counts = self.counts.lock().unwrap();
         match counts.entry(t) {
             Entry::Occupied(mut entry) => {
                 if *entry.get() <= 1 {
                     entry.remove();
+                    last();
                     true
                 } else {
                     *entry.get_mut() -= 1;
